@@ -45,6 +45,10 @@ theorem blocks_refine_spec : C06_full := by
     have hc := (hyp_all env ctx henv fuel).chain [main] T.layout (initSt T) none false 0 T.ae
       (initChainSt env main T hT (initSt T)) (henv.layout hT) (by simp)
     simp only []
+    cases hL : T.loadErr with
+    | some kk => rfl
+    | none =>
+    simp only []
     have hfr : (initSt T).frames = [[]] := rfl
     rw [hfr] at hc
     rw [← hc]
@@ -119,7 +123,7 @@ def blockResult (r : SRes) : Except Err (List String) :=
     `render_block(n)` renders the most-derived definition of `n` along that chain (`specBlock`:
     an unknown block or a lone `required` definition is an error). -/
 theorem render_block_most_derived (env : Env) (cfg : Cfg) (henv : EnvOK env) (fuel main n : Nat)
-    (T : Template) (o : List String) (st' : St) (hT : env[main]? = some T)
+    (T : Template) (o : List String) (st' : St) (hT : env[main]? = some T) (hL : T.loadErr = none)
     (hr : evalImpl env cfg fuel none false false 0 T.ae T.layout (initSt T) = .ok (o, st')) :
     ∃ more, renderThenBlock env cfg fuel main n =
       blockResult (specBlock (specAll env cfg fuel) (defs env (main :: more)) false 0 T.ae n st'.frames) := by
@@ -130,7 +134,7 @@ theorem render_block_most_derived (env : Env) (cfg : Cfg) (henv : EnvOK env) (fu
     ⟨hst.blocks, (by intro k hk; cases hk), fun _ m _ => hst.depth m⟩
   have hc := callBlock_sim (hyp_all env cfg henv fuel) _ (WF_defs env henv ([main] ++ more)) none 0 n false 0
     T.ae st' hg (by intro k hk; cases hk)
-  simp only [renderThenBlock, hT, hr, hc, List.singleton_append]
+  simp only [renderThenBlock, hT, hL, hr, hc, List.singleton_append]
   cases specBlock (specAll env cfg fuel) (defs env (main :: more)) false 0 T.ae n st'.frames with
   | error e => rfl
   | ok r => rfl
@@ -138,7 +142,7 @@ theorem render_block_most_derived (env : Env) (cfg : Cfg) (henv : EnvOK env) (fu
 /-- `Template::new_state().render_block(n)`: on a fresh state only the template's own blocks are
     known — the block renders its own definition, `super()` inside it has no parent -/
 theorem render_block_on_fresh_state (env : Env) (cfg : Cfg) (henv : EnvOK env) (fuel main n : Nat)
-    (T : Template) (hT : env[main]? = some T) :
+    (T : Template) (hT : env[main]? = some T) (hL : T.loadErr = none) :
     blockOnFreshState env cfg fuel main n =
       blockResult (specBlock (specAll env { cfg with rootCtx := [] } fuel) (defs env [main]) false 0 T.ae n []) := by
   have hst := initChainSt env main T hT { initSt T with frames := [] }
@@ -146,7 +150,7 @@ theorem render_block_on_fresh_state (env : Env) (cfg : Cfg) (henv : EnvOK env) (
     ⟨hst.blocks, (by intro k hk; cases hk), fun _ m _ => hst.depth m⟩
   have hc := callBlock_sim (hyp_all env { cfg with rootCtx := [] } henv fuel) _ (WF_defs env henv [main]) none 0 n
     false 0 T.ae _ hg (by intro k hk; cases hk)
-  simp only [blockOnFreshState, hT, hc]
+  simp only [blockOnFreshState, hT, hL, hc]
   cases specBlock (specAll env { cfg with rootCtx := [] } fuel) (defs env [main]) false 0 T.ae n [] with
   | error e => rfl
   | ok r => rfl
@@ -232,6 +236,11 @@ theorem rendering_terminates (env : Env) (ctx : Cfg) (henv : EnvOK env) (main fu
       (by simpa [renderFuel] using hfuel)
     intro e he
     simp only [] at he
+    cases hL : T.loadErr with
+    | some kk => rw [hL] at he; cases he; cases kk <;> simp [loadErrKind]
+    | none =>
+    rw [hL] at he
+    simp only [] at he
     cases hr : (specAll env ctx fuel).chain [main] false 0 T.ae T.layout [[]] with
     | error e' => rw [hr] at he; cases he; exact this.1 _ hr
     | ok r => rw [hr] at he; cases he
@@ -242,15 +251,16 @@ theorem rendering_terminates (env : Env) (ctx : Cfg) (henv : EnvOK env) (main fu
     amount — is the cycle error or template-not-found; never success, never truncated output,
     and not the recursion limit. -/
 theorem cycle_is_detected_error (env : Env) (ctx : Cfg) (henv : EnvOK env)
-    (hall : ∀ T ∈ env, extendsAfterText T.layout = true) (main fuel : Nat)
-    (hmain : main < env.length) (hfuel : env.length + 1 ≤ fuel) :
+    (hall : ∀ T ∈ env, extendsAfterText T.layout = true) (hload : ∀ T ∈ env, T.loadErr = none)
+    (main fuel : Nat) (hmain : main < env.length) (hfuel : env.length + 1 ≤ fuel) :
     render env ctx fuel main = .error [.invalidOperation] ∨
       render env ctx fuel main = .error [.templateNotFound] := by
   rw [blocks_refine_spec env ctx fuel main henv]
   unfold specRender
   have hT : env[main]? = some env[main] := List.getElem?_eq_getElem hmain
   rw [hT]
-  have := cycle_detected_spec env ctx hall env.length fuel [main] false 0 env[main].ae env[main].layout [[]]
+  simp only [hload _ (List.getElem_mem hmain)]
+  have := cycle_detected_spec env ctx hall hload env.length fuel [main] false 0 env[main].ae env[main].layout [[]]
     (by simp) (by simp) (by simp) (by simp) hfuel (hall _ (List.getElem_mem hmain))
   rcases this with h | h <;> simp [h]
 
@@ -268,17 +278,17 @@ example : render cycEnv c0 3 0 = .error [.invalidOperation] := by decide +kernel
     `rendering_terminates` that innermost error is the engine's `InvalidOperation` (recursion
     limit exceeded), not the model's fuel. -/
 theorem include_cycle_errors (env : Env) (ctx : Cfg) (henv : EnvOK env)
-    (hall : ∀ T ∈ env, includesAfterText env T.layout = true) (main fuel : Nat)
-    (hmain : main < env.length) :
+    (hall : ∀ T ∈ env, includesAfterText env T.layout = true) (hload : ∀ T ∈ env, T.loadErr = none)
+    (main fuel : Nat) (hmain : main < env.length) :
     (∃ e, render env ctx fuel main = .error e ∧ IncErr e) ∧
     (renderFuel env ≤ fuel →
       ∃ j, render env ctx fuel main = .error (List.replicate j Kind.badInclude ++ [.invalidOperation])) := by
   have hT : env[main]? = some env[main] := List.getElem?_eq_getElem hmain
-  obtain ⟨e, he, hie⟩ := include_cycle_spec env ctx hall fuel main hmain _ hT false 0 env[main].ae [[]]
+  obtain ⟨e, he, hie⟩ := include_cycle_spec env ctx hall hload fuel main hmain _ hT false 0 env[main].ae [[]]
   have hr : render env ctx fuel main = .error e := by
     rw [blocks_refine_spec env ctx fuel main henv]
     unfold specRender
-    rw [hT]; simp only [he]
+    rw [hT]; simp only [hload _ (List.getElem_mem hmain), he]
   refine ⟨⟨e, hr, hie⟩, ?_⟩
   intro hf
   obtain ⟨j, k, hjk, hk⟩ := hie
@@ -334,7 +344,7 @@ example : render [ { layout := [.text "<a>", .incl [7, 8] true, .text "<z>"], bl
     loaded set are back; an error inside it is wrapped in `BadInclude` — never swallowed. -/
 theorem include_first_existing (env : Env) (rec : Rec) (cur : Option Nat) (disc ign : Bool) (outer : Nat)
     (missing more : List Nat) (t : Nat) (T : Template)
-    (hmiss : ∀ m ∈ missing, env[m]? = none) (hT : env[t]? = some T) (st : St) :
+    (hmiss : ∀ m ∈ missing, env[m]? = none) (hT : env[t]? = some T) (hL : T.loadErr = none) (st : St) :
     performInclude env rec cur disc ign outer (missing ++ t :: more) false st =
       if outer + INCLUDE_COST + st.frames.length > LIMIT then .error [.invalidOperation]
       else
@@ -344,7 +354,7 @@ theorem include_first_existing (env : Env) (rec : Rec) (cur : Option Nat) (disc 
         | .ok (o, st') =>
           .ok (o, { blocks := st.blocks, depth := st.depth, loaded := st.loaded,
                     frames := st'.frames.take st.frames.length }) :=
-  performInclude_first env rec cur disc ign outer missing more t T hmiss hT false st
+  performInclude_first env rec cur disc ign outer missing more t T hmiss hT hL false st
 
 /-- the auto-escape mode across template boundaries: an included template runs in the mode its
     own name selects (`T.ae` in `include_first_existing`), not in the includer's current mode —
@@ -366,6 +376,32 @@ example : render [ { layout := [.extends true 1, .callBlock 0], blocks := [(0, [
                    { layout := [.emitVar 0, .callBlock 0], blocks := [(0, [.emitVar 0])], ae := .html } ]
     { rootCtx := [(0, .str "a<b")] } 8 0 = .ok ["a<b", "a<b", "a<b"] := by decide +kernel
 
+/-- `ignore missing` forgives only *missing* names.  A name that exists but cannot be loaded —
+    the template does not compile, the loader returns an error — is not missing: the lookup
+    error (with its own kind; a syntax error names the broken template) is the result of the
+    include, with or without `ignore missing`, whatever names precede (missing ones) or follow
+    it; the next candidate is *not* tried and nothing is rendered as a success. -/
+theorem include_ignore_missing_forgives_only_missing (env : Env) (rec : Rec) (cur : Option Nat)
+    (disc ign : Bool) (outer : Nat) (missing more : List Nat) (t : Nat) (T : Template) (k : LoadErr)
+    (hmiss : ∀ m ∈ missing, env[m]? = none) (hT : env[t]? = some T) (hL : T.loadErr = some k) (st : St) :
+    performInclude env rec cur disc ign outer (missing ++ t :: more) false st = .error [loadErrKind t k] :=
+  performInclude_load_error env rec cur disc ign outer missing more t T k hmiss hT hL false st
+
+/-- `broken` exists but does not compile, `fallback` is fine: with and without `ignore missing`
+    the include is the syntax error of `broken`; a broken parent of `extends` and a broken
+    `import` likewise -/
+def brokenEnv : Env :=
+  [ { layout := [.text "<a>", .incl [9, 1, 2] true, .text "<z>"], blocks := [] },
+    { layout := [], blocks := [], loadErr := some .syntax },
+    { layout := [.text "<fallback>"], blocks := [] },
+    { layout := [.extends true 1], blocks := [] },
+    { layout := [.importAs 1 5], blocks := [] } ]
+
+example : render brokenEnv c0 8 0 = .error [.syntaxError 1] := by decide +kernel
+example : render brokenEnv c0 8 3 = .error [.syntaxError 1] := by decide +kernel
+example : render brokenEnv c0 8 4 = .error [.syntaxError 1] := by decide +kernel
+example : render brokenEnv c0 8 1 = .error [.syntaxError 1] := by decide +kernel
+
 def incEnv : Env :=
   [ { layout := [.setVar 1 "L", .incl [9, 1, 2] false], blocks := [] },
     { layout := [.text "<x:", .emitVar 1, .text ">"], blocks := [] },
@@ -382,7 +418,7 @@ example : render incEnv c0 10 0 = .ok ["<x:", "L", ">"] := by decide +kernel
     (`hd`: the import stays below the recursion limit.) -/
 theorem import_exports_toplevel (env : Env) (ctx : Cfg) (f : Nat) (cur : Option Nat) (d0 e0 : Bool)
     (outer : Nat) (ae : AE) (parent : Option (List Item)) (t : Nat) (T : Template) (hT : env[t]? = some T)
-    (hs : T.layout.all Item.isAssign = true) (rest : List Item) (st : St)
+    (hL : T.loadErr = none) (hs : T.layout.all Item.isAssign = true) (rest : List Item) (st : St)
     (hd : outer + INCLUDE_COST + (st.frames.length + 1) ≤ LIMIT) :
     (∀ v, stepItems ⟨env, ctx, cur, d0, e0, outer, ae⟩ (evalImpl env ctx (f + 1)) parent (.importAs t v :: rest) st =
         stepItems ⟨env, ctx, cur, d0, e0, outer, ae⟩ (evalImpl env ctx (f + 1)) parent rest
@@ -393,8 +429,8 @@ theorem import_exports_toplevel (env : Env) (ctx : Cfg) (f : Nat) (cur : Option 
           { st with frames := store st.frames alias ((lookupVal name (assigns T.layout [])).getD .undef) }) ∧
     (∀ name, T.layout.all (fun it => !assignsVar name it) = true →
         lookupVal name (assigns T.layout []) = none) := by
-  refine ⟨fun v => importAs_step env ctx f cur d0 e0 outer ae parent t v T hT hs rest st hd,
-    fun name alias => fromImport_step env ctx f cur d0 e0 outer ae parent t name alias T hT hs rest st hd, ?_⟩
+  refine ⟨fun v => importAs_step env ctx f cur d0 e0 outer ae parent t v T hT hL hs rest st hd,
+    fun name alias => fromImport_step env ctx f cur d0 e0 outer ae parent t name alias T hT hL hs rest st hd, ?_⟩
   intro name h
   rw [lookup_assigns_other name T.layout [] h]
   rfl
@@ -407,7 +443,8 @@ theorem import_exports_toplevel (env : Env) (ctx : Cfg) (f : Nat) (cur : Option 
 theorem import_of_extending_template (env : Env) (ctx : Cfg) (henv : EnvOK env) (f : Nat)
     (cur : Option Nat) (d0 e0 : Bool) (outer : Nat) (ae : AE) (parent : Option (List Item))
     (t p v : Nat) (T P : Template) (pre post : List Item)
-    (hT : env[t]? = some T) (hP : env[p]? = some P) (hl : T.layout = pre ++ .extends true p :: post)
+    (hT : env[t]? = some T) (hP : env[p]? = some P) (hLT : T.loadErr = none) (hLP : P.loadErr = none)
+    (hl : T.layout = pre ++ .extends true p :: post)
     (hpre : pre.all Item.isAssign = true) (hpost : post.all Item.isAssign = true)
     (hpl : P.layout.all Item.isAssign = true) (rest : List Item) (st : St)
     (hd : outer + INCLUDE_COST + (st.frames.length + 1) ≤ LIMIT) :
@@ -415,7 +452,7 @@ theorem import_of_extending_template (env : Env) (ctx : Cfg) (henv : EnvOK env) 
       stepItems ⟨env, ctx, cur, d0, e0, outer, ae⟩ (evalImpl env ctx (f + 2)) parent rest
         { st with frames := (store st.frames v
             (Val.module (dedupKeys (assigns P.layout (assigns post (assigns pre [])))))) } :=
-  importAs_extending_step env ctx henv f cur d0 e0 outer ae parent t p v T P pre post hT hP hl hpre hpost hpl
+  importAs_extending_step env ctx henv f cur d0 e0 outer ae parent t p v T P pre post hT hP hLT hLP hl hpre hpost hpl
     rest st hd
 
 example : render
